@@ -30,6 +30,7 @@ json generate(uint64_t seed, uint64_t idx, int tier)
 	sg.vcb2 = true;
 	sg.keystrval = r.chance(1, 4);
 	sg.max_opts = 6;
+	sg.simple = r.chance(1, 2); // options bound to application variables keep no value list: callbacks must still run for them
 	json schema = gen_schema(r, sg);
 	strip_defaults_of_callback_options(schema["opts"]);
 	plan["schemas"] = json::array({schema});
